@@ -29,7 +29,7 @@ def CLASSIFY(c, real, msg):
 
 def streams(ctx):
     n = 8 if ctx.thorough else 1
-    return [("tagged", "tagged", 600 * n), ("tagged-2hap", "tagged2", 300 * n), ("hap-named-input", "hapnames", 150 * n), ("hap-tags-other-case", "hapmix", 250 * n), ("untagged", "script", 150 * n)]
+    return [("tagged", "tagged", 600 * n), ("tagged-2hap", "tagged2", 300 * n), ("hap-named-input", "hapnames", 150 * n), ("hap-tags-other-case", "hapmix", 250 * n), ("target-mode-pieces-removed", "targetdrop", 200 * n), ("untagged", "script", 150 * n)]
 
 
 def gen(ctx, kind):
@@ -47,6 +47,9 @@ def run(ctx):
     # the CLI end to end (info yaml, file names, csv files) on a sample of the same generators
     cli_cases = [gen(ctx, kind) for stream, kind, n in streams(ctx) for _ in range(max(8, n // 25))]
     R.run_cli_cases(ctx, "cli-end-to-end", cli_cases, classify, only=["output file", "does not contain exactly", "unexpected assembly files"], names_model=True)
+    # history: the same maps remapped AFTER other maps of the same input on ONE IndexedAssembly object (in-process state must not matter)
+    hk = ['tagged', 'tagged2']
+    R.run_history_cases(ctx, "object-history", [R.make_case(ctx.rng, ctx.rng.choice(hk)) for _ in range(240 if ctx.thorough else 40)], PROJ, oracle, (classify if "classify" in globals() else None))
 
 
 def search(ctx, broken):
